@@ -35,8 +35,12 @@ SAFE_METHODS = {
     set: {"intersection", "union", "add", "difference", "issubset", "copy", "update"},
     frozenset: {"intersection", "union", "difference", "issubset"},
     tuple: {"index", "count"},
-    str: {"join", "format", "startswith", "endswith"},
+    str: {"join", "format", "startswith", "endswith", "encode", "replace", "split", "strip", "rstrip", "lstrip", "upper", "lower", "isdigit", "find", "index", "count", "splitlines", "zfill", "rjust", "ljust", "isalnum", "partition"},
+    bytes: {"decode", "hex", "startswith", "endswith", "join", "rjust", "ljust"},
+    bytearray: {"decode", "hex"},
 }
+SAFE_TYPE_ATTRS = {bytes: {"fromhex"}, int: {"from_bytes"}, dict: {"fromkeys"}}
+SAFE_MODULES = {"base64", "re", "math", "string"}
 
 
 class OpVal:
@@ -216,6 +220,12 @@ class MiniEval:
                 return self.env[e.id]
             if e.id in ("True", "False", "None"):
                 return {"True": True, "False": False, "None": None}[e.id]
+            try:
+                return self.oracle(e, self)
+            except Unknown:
+                pass
+            if e.id in ("int", "str", "bytes", "bytearray", "list", "dict", "tuple", "set", "bool", "float", "type"):
+                return {"int": int, "str": str, "bytes": bytes, "bytearray": bytearray, "list": list, "dict": dict, "tuple": tuple, "set": set, "bool": bool, "float": float, "type": type}[e.id]
             return self._ask(e)
         if isinstance(e, (ast.List, ast.Tuple, ast.Set)):
             out = []
@@ -404,7 +414,15 @@ class MiniEval:
                     if pname in params and params.index(pname) < len(base.parts[1]):
                         return base.parts[1][params.index(pname)]
             return Rec("attr", base, attr)
-        if isinstance(base, (list, dict, set, tuple, str, frozenset)):
+        if isinstance(base, type) and base in SAFE_TYPE_ATTRS and attr in SAFE_TYPE_ATTRS[base]:
+            return getattr(base, attr)
+        import types as _types
+
+        if isinstance(base, _types.ModuleType) and base.__name__ in SAFE_MODULES:
+            return getattr(base, attr)
+        if type(base).__module__ == "re":
+            return getattr(base, attr)
+        if isinstance(base, (list, dict, set, tuple, str, frozenset, bytes, bytearray)):
             for ty, names in SAFE_METHODS.items():
                 if isinstance(base, ty) and attr in names:
                     m = getattr(base, attr)
@@ -488,8 +506,8 @@ class MiniEval:
                 v = self.ev(e.args[0])
                 if isinstance(v, Sym) and "$type" in v.attrs:
                     return v.attrs["$type"]
-                if isinstance(v, (int, str, list, tuple, dict, bool)):
-                    return Rec("name", type(v).__name__)
+                if isinstance(v, (int, str, list, tuple, dict, bool, bytes, bytearray, type(None), float, set)):
+                    return type(v)
                 raise AnalysisError(f"{self.where}: type() of abstract value in `{u(e)}`")
             if f.id in self.env:
                 fn = self.env[f.id]
